@@ -45,6 +45,20 @@ class Value:
         self.att = att
 
 
+class TraceOverflow(BaseException):
+    """raised into the library by the recorder once a single call has performed more observable actions than any configuration
+    of the scripts allows (max_attempts <= 9): a runaway loop ends here instead of filling the memory"""
+
+
+class Trace(list):
+    LIMIT = 4000
+
+    def append(self, x):
+        if len(self) >= self.LIMIT:
+            raise TraceOverflow(f"more than {self.LIMIT} observable actions in one call")
+        list.append(self, x)
+
+
 CURRENT = [None]     # the World of the call in progress (Suspend has to know how the coroutine is being run)
 
 
@@ -73,6 +87,25 @@ class Suspend:
 
 class ScriptedTimeout(ScriptedError, TimeoutError):
     """an operation's own TimeoutError (must surface unchanged through the attempt-timeout wrapper)"""
+
+
+class EmptyBatchError(ScriptedError):
+    """a container-like error that is falsy (len() == 0): the library may tell "no exception" only by `is None`"""
+
+    def __len__(self):
+        return 0
+
+
+class EmptyBatchTimeout(ScriptedTimeout):
+    def __bool__(self):
+        return False
+
+
+class EmptyValue(Value):
+    """a falsy result object"""
+
+    def __len__(self):
+        return 0
 
 
 class VSelector:
@@ -163,7 +196,7 @@ class World:
         self.env = call["env"]
         self.variant = call.get("variant") or {}
         self.is_async = call["async"]
-        self.trace = []
+        self.trace = Trace()
         self.invocations = 0
         self.polls = 0
         self.metrics = 0
@@ -173,6 +206,7 @@ class World:
         self.keep = []
         self.susp = 0
         self.hung = []
+        self.same_err = None
         self.pending_throw = None
         self.no_retry = bool(shared.seq["policies"][call["policy"]].get("no_retry"))
 
@@ -216,16 +250,37 @@ class World:
         return i, att, kind, klass, ra
 
     def op_finish(self, att, kind, klass):
+        falsy = self.variant.get("falsy_objs")
         if kind == "V":
-            return self.remember(Value(att), "V", att)
+            return self.remember((EmptyValue if falsy else Value)(att), "V", att)
         if kind == "R":
             if self.cur_op_flag == "te" and (att + self.variant.get("bare", 0)) % 2 == 0:
-                err = ScriptedTimeout()      # an argument-less TimeoutError of the operation's own (what a nested asyncio.timeout raises)
+                # an argument-less TimeoutError of the operation's own (what a nested asyncio.timeout raises)
+                err = (EmptyBatchTimeout if falsy else ScriptedTimeout)()
+            elif self.cur_op_flag == "te":
+                err = (EmptyBatchTimeout if falsy else ScriptedTimeout)("scripted failure %d" % att)
+            elif self.variant.get("same_exc"):
+                # one long-lived error object raised again by every failing attempt: what the library learnt about it at an
+                # earlier attempt says nothing about this one
+                if self.same_err is None:
+                    self.same_err = (EmptyBatchError if falsy else ScriptedError)("scripted failure (one object)")
+                err = self.same_err
+            elif self.variant.get("exc_group"):
+                # the failure arrives wrapped (TaskGroup / anyio style): the group is the attempt's own exception object
+                err = ExceptionGroup("scripted failure %d" % att, [ScriptedError("member of %d" % att)])
             else:
-                err = (ScriptedTimeout if self.cur_op_flag == "te" else ScriptedError)("scripted failure %d" % att)
+                err = (EmptyBatchError if falsy else ScriptedError)("scripted failure %d" % att)
+            if self.variant.get("chained"):
+                # raised while a downstream rejection / an earlier failure was being handled: what an exception is chained to says
+                # nothing about the exception itself
+                err.__cause__ = CircuitOpenError("downstream") if att % 2 else AbortRetryError()
+                err.__context__ = KeyboardInterrupt() if att % 3 == 0 else err.__cause__
             st = STATUS_OF.get(klass) if self.no_retry else None
             if st is not None:
                 err.status = st     # default_classifier (used when no retry is configured) answers the scripted class
+            if err is self.same_err and id(err) in self.objs:
+                # the one long-lived object: it stands for the attempt whose failure the library looked at last (see classifier)
+                raise err
             raise self.remember(err, "E", att)
         if kind == "A":
             raise self.remember(AbortRetryError(), "A", att)
@@ -278,8 +333,11 @@ class World:
         return Classification(klass=k, retry_after_s=None if ra is None else float(ra) if isinstance(ra, str) else ra * vclock.TICK)
 
     def classifier(self, exc):
-        self.release_hung()
+        if not self.variant.get("hold_hung"):
+            self.release_hung()
         r = self.objs.get(id(exc))
+        if exc is self.same_err and exc is not None:
+            r = self.objs[id(exc)] = ("E", self.invocations)
         if r is None and isinstance(exc, TimeoutError):
             cur = nth(self.env["ops"], self.invocations - 1, None)
             if cur is not None and len(cur) > 4 and cur[0] == "R" and cur[4] == "hang":
@@ -631,6 +689,11 @@ class SpyBudget(Budget):
         super().__init__(**kw)
         self._shared = shared
 
+    def __len__(self):
+        # a subclass reporting "tokens in use" (or "capacity left") is falsy at times: the library may tell "no budget" only by
+        # `is None`
+        return 0 if self._shared.seq.get("falsy_shared", True) else 1
+
     def consume(self, cost=1):
         r = super().consume(cost)
         self._shared.cur.trace.append(["B", bool(r)])
@@ -650,6 +713,10 @@ class SpyBreaker(CircuitBreaker):
 
     def _st(self):
         return self._state.name
+
+    def __len__(self):
+        # a subclass reporting "failures in the window" is falsy right after it opened: "no breaker" is `is None` only
+        return 0 if self._shared.seq.get("falsy_shared", True) else 1
 
     def allow(self):
         d = super().allow()
@@ -755,6 +822,8 @@ def innermost_frame_name(exc):
 
 
 def enc_exception(w, e):
+    if isinstance(e, TraceOverflow):
+        return ["runaway", Trace.LIMIT]
     r = w.objs.get(id(e))
     if r is not None:
         tag, att = r
